@@ -45,6 +45,16 @@ func mayFail(E *Env, i int) (string, error) {
 	return fmt.Sprintf("[ok%d]", i), nil
 }
 
+// dec returns a copy of E with N[0] decremented (bounded recursion in generated templates)
+func dec(E *Env) *Env {
+	c := *E
+	c.N = append([]int{}, E.N...)
+	if len(c.N) > 0 {
+		c.N[0]--
+	}
+	return &c
+}
+
 type objBoth struct{ id, class string }
 
 func (o objBoth) ObjectID() string    { return o.id }
